@@ -24,6 +24,8 @@ import (
 
 func TestMain(m *testing.M) { vstat.Main(m.Run) }
 
+var errClosedByTest = errors.New("verif: closed by the test")
+
 type evX struct{ n int }
 type evY struct{ n int }
 
@@ -133,19 +135,36 @@ func TestC10Stress(t *testing.T) {
 						}
 					case 5:
 						if ref := pick(y >> 20); ref != nil {
-							f := sys.Ask(ref, &ping{n: i}, 200*time.Millisecond)
+							// reply, timeout and an explicit Close race each other on different threads
+							tmo := []time.Duration{time.Microsecond, 5 * time.Microsecond, 20 * time.Microsecond, 100 * time.Microsecond, 200 * time.Millisecond}[(y>>41)%5]
+							f := sys.Ask(ref, &ping{n: i}, tmo)
 							var pw sync.WaitGroup
-							pw.Add(1)
+							pw.Add(2)
 							go func() { defer pw.Done(); _ = f.Wait() }()
+							closeIt := (y>>47)%2 == 0
+							go func() {
+								defer pw.Done()
+								if closeIt {
+									for k := uint64(0); k < (y>>52)%200; k++ {
+										_ = k
+									}
+									f.Close(errClosedByTest)
+								}
+							}()
 							m, err := f.Result()
 							if err == nil {
 								if p, ok := m.(*ping); !ok || p.n != i {
 									fail("C10/foreign-reply", "Ask got %v", m)
 								}
-							} else if !errors.Is(err, vivid.ErrorFutureTimeout) {
+							} else if m != nil {
+								fail("C10/future-completed-twice", "Result returned both a message (%v) and an error (%v)", m, err)
+							} else if !errors.Is(err, vivid.ErrorFutureTimeout) && !errors.Is(err, errClosedByTest) {
 								fail("C10/ask-error", "Ask: %v", err)
 							}
 							pw.Wait()
+							if m2, err2 := f.Result(); (err2 == nil) != (err == nil) || (err == nil && m2 != m) {
+								fail("C10/future-completed-twice", "two Result calls disagree: (%v,%v) then (%v,%v)", m, err, m2, err2)
+							}
 						}
 					case 6, 7:
 						if ref := pick(y >> 20); ref != nil {
